@@ -242,11 +242,12 @@ Definition template (o : op) : tmpl op :=
   | I6StartHunt => simple [TAcq LIcmp6 MW; TRd FI6HuntList; TWr FI6HuntList; TRel LIcmp6; TSpawn I6SpoofLoop]
   (* icmp6spoof.go:40 *)
   | I6StopHunt => simple [TAcq LIcmp6 MW; TRd FI6HuntList; TWr FI6HuntList; TRel LIcmp6]
-  (* icmp6.go:30 PrintTable: GetHosts, per host a row read lock, then LANRouters with NO lock *)
+  (* icmp6.go:30 PrintTable: GetHosts, per host a row read lock, then LANRouters under the handler lock
+     (repaired by /repo 46b11c1, was read with no lock) *)
   | I6PrintTable =>
       {| t_pre := [TAcq LSess MR; TRd FHostTable; TRel LSess];
          t_each := [TAcq LRow MR; TRd FHostOnline; TRel LRow];
-         t_post := [TRd FI6Routers] |}
+         t_post := [TAcq LIcmp6 MW; TRd FI6Routers; TRel LIcmp6] |}
   (* icmp6spoof.go:56 spoofLoop, one iteration: hunt list and `closed` under the handler lock (exit),
      router list under the lock, then select on h.closeChan read with NO lock *)
   | I6SpoofLoop =>
@@ -283,8 +284,9 @@ Definition template (o : op) : tmpl op :=
       simple [TAcq LDns MR; TRd FDnsMdnsCache; TWr FDnsMdnsCache; TRel LDns; TAcq LDns MW; TWr FDnsMdnsCache; TRel LDns]
   (* dnstable.go:32 DNSFind / :20 DNSExist *)
   | DnsFind => simple [TAcq LDns MR; TRd FDnsTable; TRel LDns]
-  (* dns.go:55 Close: the two maps are set to nil with NO lock *)
-  | DnsClose => simple [TWr FDnsTable; TWr FDnsMdnsCache]
+  (* dns.go:55 Close: the two maps are set to nil under the handler lock (repaired by /repo 2a21877,
+     was with no lock); a later ProcessDNS/ProcessMDNS still assigns into the nil map: see nils_map *)
+  | DnsClose => simple [TAcq LDns MW; TWr FDnsTable; TWr FDnsMdnsCache; TRel LDns]
   end.
 
 (* operations executed by the single packet-loop goroutine: never concurrent with each other *)
